@@ -420,7 +420,17 @@ def c10(scen, rec, f):
     return out
 
 
-ALL = {"C01": c01, "C02": c02, "C03": c03, "C04": c04, "C05": c05, "C06": c06, "C07": c07, "C08": c08, "C18": c18, "C19": c19, "C09": c09, "C10": c10}
+def c15(scen, rec, f):
+    """the pickler selected when a task is submitted is the one its worker uses"""
+    out = []
+    for t, name in rec.get("pickler_in_worker", []):
+        want = rec.get("pickler_at_submit", {}).get(str(t))
+        if want is not None and name != want:
+            out.append(("C15", "pickler-not-from-submit", f"task {t} was submitted under loky_pickler={want} but its worker used {name}"))
+    return out
+
+
+ALL = {"C01": c01, "C02": c02, "C03": c03, "C04": c04, "C05": c05, "C06": c06, "C07": c07, "C08": c08, "C18": c18, "C19": c19, "C09": c09, "C10": c10, "C15": c15}
 
 
 def evaluate(scen, rec, props=None):
